@@ -43,6 +43,11 @@ ANCHORS = [
     ("src/easynetwork/protocol.py", "DatagramProtocol.build_packet_from_datagram"),
     ("src/easynetwork/serializers/abc.py", "AbstractIncrementalPacketSerializer.serialize"),
     ("src/easynetwork/serializers/abc.py", "AbstractIncrementalPacketSerializer.deserialize"),
+    ("src/easynetwork/serializers/line.py", "StringLineSerializer.serialize"),
+    ("src/easynetwork/serializers/line.py", "StringLineSerializer.deserialize"),
+    ("src/easynetwork/serializers/base_stream.py", "FileBasedPacketSerializer.serialize"),
+    ("src/easynetwork/serializers/base_stream.py", "FileBasedPacketSerializer.deserialize"),
+    ("src/easynetwork/lowlevel/constants.py", "MAX_DATAGRAM_BUFSIZE"),
     ("src/easynetwork/serializers/tools.py", "GeneratorStreamReader.read_until"),
     ("src/easynetwork/serializers/tools.py", "GeneratorStreamReader.read_exactly"),
     ("src/easynetwork/serializers/tools.py", "GeneratorStreamReader.read_all"),
@@ -79,7 +84,12 @@ RULE = ("a case = up to 6 datagrams sent by the peer (valid serializations of ge
         "fresh-instance results, and the derived one-shot interface over read_until / read_exactly test serializers "
         "(all separators incl. self-overlapping ones, limits around the payload size, with converter) computed by the "
         "model; exhaustive part: every valid/malformed pattern of length <= 3 for the derived interface x 4 endpoint "
-        "kinds. Non-trivial = a malformed datagram is followed by a valid one, two items are queued before a receive, a "
+        "kinds; the StringLineSerializer one-shot codec white box (three newlines x keep_end x ascii/latin-1, every payload "
+        "of length <= 3 over {a, CR, LF} plus repeated/partial separators and a non-ascii byte, received and sent); a user "
+        "format on FileBasedPacketSerializer with the inherited serialize(); send_packet of packets whose serialization "
+        "raises (after a partial write for the file-based one) followed by good ones; the blocking transport with a small "
+        "explicit recv size; UDPNetworkClient over AF_INET6 loopback with datagrams of 65507/65508/65520/65527 bytes (recv "
+        "size regenerated from lowlevel/constants.py). Non-trivial = a malformed datagram is followed by a valid one, two items are queued before a receive, a "
         "cancelled receive with data available, a socket error behind an unread datagram, or confusable / mutated sends.")
 TRUSTED = ["models coq/IO/DgramEndpoint.v and coq/Frame/OneShot.v hand-written from protocol.py, serializers/abc.py and the "
            "datagram endpoints; validated by execution",
@@ -665,14 +675,23 @@ def _packet(rng, impl):
         return (rng.randint(-30000, 30000), rng.randint(0, 2 ** 32 - 1), rng.random() < 0.5)
     if name in (b"pickle", b"b64-pickle"):
         return rng.choice([_json_value(rng), (1, b"\x00\xff"), b"bytes", {1, 2}, 3 + 4j])
+    if name == b"filebased":
+        return ["".join(rng.choice("abxy") for _ in range(rng.randint(0, 3))) for _ in range(rng.randint(0, 3))]
     raise ValueError(name)
 
 
 SERIALIZERS = (
     [b"line", b"LF", b"ascii"], [b"line", b"CRLF", b"utf-8"], [b"json"], [b"jsonl"], [b"json+conv"],
     [b"struct", b"!hI?"], [b"pickle"], [b"b64-json", 0], [b"b64-json", 1], [b"b64-pickle", 1],
-    [b"zlib-json"], [b"bz2-json"],
+    [b"zlib-json"], [b"bz2-json"], [b"filebased"],
 )
+
+# packets whose serialization raises, per serializer (the failure may come after a partial write: filebased)
+UNSERIALIZABLE = {
+    b"json": [{1, 2}, [1, {2}], {"k": [0, {3}]}], b"jsonl": [{1, 2}], b"b64-json": [[1, {2}]], b"zlib-json": [{1, 2}],
+    b"bz2-json": [{1, 2}], b"json+conv": [("x",)], b"struct": [(1,), (1, 2, True, 4)], b"line": [5, "\udc80"],
+    b"filebased": [["a", 5], ["ab", "x", None, "y"], [7]],
+}
 
 
 def _malform(rng, valid, other):
@@ -787,6 +806,17 @@ def _sends(rng, impl):
             sends.append([1, pc, isolated_make(0, [], impl, pc)])
         if len(sends) == 2 and rng.random() < 0.5:
             sends[1] = list(sends[0])           # the same packet twice
+    bad = UNSERIALIZABLE.get(impl[1])
+    if bad and rng.random() < (0.8 if impl[1] == b"filebased" else 0.3):
+        pc = canon(rng.choice(bad))
+        try:
+            isolated_make(0, [], impl, pc)
+        except Exception:
+            if not sends:
+                good = canon(_packet(rng, impl))
+                sends.append([1, good, isolated_make(0, [], impl, good)])
+            sends.insert(rng.randrange(len(sends)), [9, pc])       # at least one good send follows the failed one
+            feats.add("send-after-failed-send")
     return sends, feats
 
 
@@ -849,7 +879,7 @@ def _derived_variants(kind, cfg, rng):
     return out
 
 
-def _derived_case(kind, cfg, seq, endpoint, rng, tags):
+def _derived_case(kind, cfg, seq, endpoint, rng, tags, bufopt=()):
     impl = [endpoint, b"inc-until" if kind == 1 else b"inc-exact"]
     dgrams = [[0, d, None, ok] for d, ok, _t in seq]
     sends = []
@@ -859,7 +889,89 @@ def _derived_case(kind, cfg, seq, endpoint, rng, tags):
         else:
             sends.append([1, bytes(rng.choice(b"pq") for _ in range(cfg[0])), None])
     ops, feats = _schedule(rng, dgrams, sends, endpoint)
-    return _mk_case(kind, cfg, ops, impl, sorted({t for _d, _ok, t in seq}) + tags + [endpoint.decode(), "derived"], feats)
+    if bufopt:
+        feats = set(feats) | {"small-recv-size"}
+    return _mk_case(kind, cfg, ops, impl, sorted({t for _d, _ok, t in seq}) + tags + [endpoint.decode(), "derived"], feats, bufopt)
+
+
+def _line_strip_ref(sep, keep_end, ascii_, d):
+    """StringLineSerializer for datagrams, stated directly: only WHOLE trailing newline sequences are removed"""
+    if not keep_end:
+        while sep and d.endswith(sep):
+            d = d[:len(d) - len(sep)]
+    if ascii_ and any(b >= 128 for b in d):
+        return "error"
+    return d
+
+
+def _line_cases(rng, thorough):
+    """white-box StringLineSerializer one-shot codec: every payload of length <= 3 over {a, CR, LF} (+ a non-ascii byte),
+    as received datagrams and as sent packets, for the three newlines x keep_end x ascii/latin-1 x the four endpoints"""
+    alphabet = [b"a", b"\r", b"\n"]
+    payloads = [b"".join(t) for n in range(0, 4) for t in itertools.product(alphabet, repeat=n)]
+    payloads += [b"a\r\n\r\n", b"\r\n\r", b"a\n\r\n", b"\xe9\r", b"a\xe9\r\n", b"ab\r\r\n"]
+    for sep in (b"\n", b"\r", b"\r\n"):
+        for keep_end in (0, 1):
+            for ascii_ in (1, 0):
+                cfg = [sep, keep_end, ascii_]
+                pool = list(payloads)
+                rng.shuffle(pool)
+                per = 4
+                groups = [pool[i:i + per] for i in range(0, len(pool), per)]
+                for gi, group in enumerate(groups):
+                    endpoint = SMALL_ENDPOINTS[gi % 4]
+                    impl = [endpoint, b"line-whitebox"]
+                    dgrams = [[0, d, None, True] for d in group]
+                    sends = []
+                    for pkt in group[:2]:
+                        if ascii_ and any(b >= 128 for b in pkt):
+                            continue
+                        if endpoint == b"async-udp-client" and not pkt and async_transport_drops_empty():
+                            continue            # known finding, has its own corpus witness
+                        sends.append([1, pkt, None])
+                    ops, feats = _schedule(rng, dgrams, sends, endpoint)
+                    partial = any(d and not d.endswith(sep) and d[-1:] in (b"\r", b"\n") for d in group) or \
+                        any(d.endswith(sep) for d in group)
+                    yield _mk_case(3, cfg, ops, impl, ["line-whitebox", NEWLINE_NAMES[sep], endpoint.decode()],
+                                   set(feats) | ({"partial-separator"} if partial else set()))
+
+
+_V6 = None
+
+
+def ipv6_loopback() -> bool:
+    global _V6
+    if _V6 is None:
+        try:
+            s6 = socket.socket(socket.AF_INET6, socket.SOCK_DGRAM)
+            s6.bind(("::1", 0))
+            s6.close()
+            _V6 = True
+        except OSError:
+            _V6 = False
+    return _V6
+
+
+def _large_cases(rng, thorough):
+    """UDPNetworkClient over AF_INET6 loopback: datagrams up to the largest UDP payload (65527 bytes over IPv6; 65507 is
+    the IPv4 maximum) between small ones; the recv size comes from lowlevel/constants.py"""
+    if not ipv6_loopback():
+        return
+    bufsize = max_datagram_bufsize()
+    for ser, tokp in (([b"line", b"LF", b"ascii"], b"line"), ([b"json"], b"json")):
+        impl = [b"udp-client-v6"] + ser
+        for sizes in ((65527,), (65507, 65508), (1000, 65527, 5), (65520,)) + (((65526, 65527, 65527),) if thorough else ()):
+            ops = []
+            for i, n in enumerate(sizes):
+                if n < 100:
+                    d = isolated_make(0, [], impl, canon(_packet(rng, impl)))
+                    ops += [[0, d, isolated_build(0, [], impl, d), True]]
+                else:
+                    token = tokp + b"-%d-%d" % (n, i)
+                    big = big_datagram(n, token)
+                    ops += [[8, n, token, isolated_build(0, [], impl, big), isolated_build(0, [], impl, big[:bufsize])]]
+            ops += [[3]] * len(sizes)
+            yield _mk_case(0, [], ops, impl, ["large", ser[0].decode(), "udp-client-v6"], {"large-datagram"})
 
 
 def cases(tier, rng, escalate):
@@ -874,7 +986,7 @@ def cases(tier, rng, escalate):
         cfgs.append((2, [size, rng.choice([0, 1]), rng.choice([0, 1])]))
     maxlen = 3 if thorough else 2
     for kind, cfg in cfgs:
-        for endpoint in ENDPOINTS:
+        for endpoint in SMALL_ENDPOINTS:
             variants = _derived_variants(kind, cfg, rng)
             for n in range(1, maxlen + 1):
                 for seq in itertools.product(variants, repeat=n):
@@ -886,10 +998,18 @@ def cases(tier, rng, escalate):
         kind, cfg = rng.choice(cfgs)
         variants = _derived_variants(kind, cfg, rng) + _derived_variants(kind, cfg, rng)
         seq = [rng.choice(variants) for _ in range(rng.randint(3, 6))]
-        yield _derived_case(kind, cfg, seq, rng.choice(ENDPOINTS), rng, ["random", f"kind{kind}"])
+        yield _derived_case(kind, cfg, seq, rng.choice(SMALL_ENDPOINTS), rng, ["random", f"kind{kind}"])
+    # the blocking transport with a small explicit recv size: datagrams longer than it are cut by recv(2)
+    for _ in range(400 if thorough else 120):
+        kind, cfg = rng.choice(cfgs)
+        variants = _derived_variants(kind, cfg, rng) + _derived_variants(kind, cfg, rng)
+        seq = [rng.choice(variants) for _ in range(rng.randint(1, 4))]
+        yield _derived_case(kind, cfg, seq, b"sync-endpoint", rng, ["random", f"kind{kind}"], bufopt=[rng.choice([1, 2, 3, 4, 6, 9])])
+    yield from _line_cases(rng, thorough)
+    yield from _large_cases(rng, thorough)
     # black-box serializers
     for _ in range(8000 if thorough else 1500):
-        yield _blackbox_case(rng, list(rng.choice(SERIALIZERS)), rng.choice(ENDPOINTS))
+        yield _blackbox_case(rng, list(rng.choice(SERIALIZERS)), rng.choice(SMALL_ENDPOINTS))
 
 
 # ------------------------------------------------------------------------------------------------ property oracle
@@ -924,10 +1044,17 @@ def oracle(inp):
                 return f"sock-error: the asynchronous socket error was due at this position but recv_packet gave {r!r}"
             return None
         d = item
-        if kind == 0:
+        if kind == 3:
+            want = _line_strip_ref(cfg[0], cfg[1], cfg[2], d)
+            if want == "error":
+                if r[0] != 1:
+                    return f"line: datagram {d!r} is not decodable but recv_packet gave {r!r}"
+            elif r != [0, want]:
+                return f"line: datagram {d!r} holds the text {want!r} but recv_packet gave {r!r}"
+        elif kind == 0:
             want = isolated_build(kind, cfg, impl, d)
             if r != want:
-                return f"isolation: datagram {d!r} alone gives {want!r} but gave {r!r} in sequence"
+                return f"isolation: datagram {d[:40]!r}... ({len(d)} bytes) alone gives {want!r} but gave {r!r} in sequence"
         else:
             want = _expected_derived(kind, cfg, d)
             if want == "error":
@@ -937,9 +1064,15 @@ def oracle(inp):
                 return f"derived: datagram {d!r} is one frame of {want!r} but recv_packet gave {r!r}"
         return None
 
+    bufopt = inp[5] if len(inp) > 5 else []
     for op, res in zip(ops, out):
         if op[0] == 0:
-            queue.append(op[1])
+            queue.append(op[1][:bufopt[0]] if bufopt else op[1])     # an explicit max_datagram_size is the caller's choice
+        elif op[0] == 8:
+            queue.append(big_datagram(op[1], op[2]))
+        elif op[0] == 9:
+            if res != [[7]]:
+                return f"failed-send: send_packet({op[1]!r}) cannot be serialized but gave {res!r}"
         elif op[0] == 7:
             queue.append("ERR")
         elif op[0] in (1, 5):
@@ -947,6 +1080,14 @@ def oracle(inp):
                 return f"empty-datagram-dropped: send_packet({op[1]!r}) serializes to b'' and no datagram reached the peer"
             if len(res) != 1 or res[0][0] != 4:
                 return f"send: send_packet produced {len(res)} datagrams ({res!r})"
+            if kind == 3:
+                # the wire must carry the packet's text; the peer's deserialize may strip WHOLE trailing newlines only
+                ref = _line_strip_ref(cfg[0], cfg[1], cfg[2], op[1])
+                back = [0, _line_strip_ref(cfg[0], cfg[1], cfg[2], res[0][1])] if res[0][1] == op[1] else [4, res[0][1]]
+                got = isolated_build(kind, cfg, impl, res[0][1])
+                if back != [0, ref] or got != [0, ref]:
+                    return f"roundtrip: send_packet({op[1]!r}) put {res[0][1]!r} on the wire which deserializes to {got!r}, expected {ref!r}"
+                continue
             back = isolated_build(kind, cfg, impl, res[0][1])
             sent = op[1] + cfg[0] if kind == 1 and cfg[2] else op[1]     # keep_end test serializer returns the separator too
             if back != [0, sent]:
